@@ -163,7 +163,17 @@ const HNAMES: &[&str] = &["Content-Type", "Server", "Date", "Set-Cookie", "X-Cus
 
 fn rand_hvalue(rng: &mut Rng) -> String {
     const ALPH: &[&str] = &["a", "b", "Z", "0", " ", ":", ",", ";", "=", "/", "é", "€", "😀", "\"", "-", "."];
-    let n = rng.below(16);
+    let n0 = rng.below(16);
+    // now and then a LONG field line: lengths around the usual buffer and limit sizes (4 KiB, 8 KiB, 16 KiB, 64 KiB)
+    if rng.chance(1, 48) {
+        let target = *rng.pick(&[4090usize, 4096, 8150, 8186, 8192, 8193, 8200, 16384, 16400, 65530, 65536, 70000]) + rng.below(8) as usize;
+        let mut s = String::with_capacity(target + 8);
+        while s.len() < target {
+            if rng.chance(1, 64) { s.push_str(*rng.pick(ALPH)); } else { s.push('a'); }
+        }
+        return s.trim().to_string();
+    }
+    let n = n0;
     let mut s = String::new();
     for _ in 0..n {
         s.push_str(*rng.pick(ALPH));
